@@ -1,9 +1,10 @@
 (* conv: io n z *)
 (* C17 driver.  One case per line:
-     conv fe fw hook er  <events: n ev...>  post       (hook: 0 ok | 1 raises | 2 slow | 3 awaits)
+     conv fe fw ft hook er  <events: n ev...>  post nh  (hook: 0 ok | 1 raises | 2 slow | 3 awaits;
+                                                       nh: handler tasks 0..nh-1 get a run after the two tasks)
    events: 0 = Send | 1 i = UserCancel | 2 0 i 0 v = SrvWrite (Reply i (RResult v))
          | 2 0 i 1 c = SrvWrite (Reply i (RError c)) | 2 1 = SrvWrite BadFrame | 2 2 = SrvWrite Junk
-         | 2 3 i = SrvWrite (BadReply i)
+         | 2 3 i = SrvWrite (BadReply i) | 2 4 j = SrvWrite (Request j) | 7 j = HandlerStep j | 8 j = HandlerReturn j
          | 3 rc t = ProcExit rc tail(0 clean,1 part header,2 part body,3 junk)
          | 4 = ReaderRun | 5 = ServerExitTask | 6 = Stop
    The events are the conversation up to and including everything the caller did before it
@@ -24,6 +25,7 @@ let next_event () =
                   | _ -> let c = next_z () in SrvWrite (Reply (i, RError c)))
           | 1 -> SrvWrite BadFrame
           | 3 -> let i = next_n () in SrvWrite (BadReply i)
+          | 4 -> let j = next_n () in SrvWrite (Request j)
           | _ -> SrvWrite Junk)
   | 3 -> let rc = next_z () in
          let t = (match next_int () with 0 -> TClean | 1 -> TPartHeader | 2 -> TPartBody | _ -> TJunk) in
@@ -31,26 +33,29 @@ let next_event () =
   | 4 -> ReaderRun
   | 5 -> ServerExitTask
   | 6 -> Stop
+  | 7 -> let j = next_n () in HandlerStep j
+  | 8 -> let j = next_n () in HandlerReturn j
   | _ -> failwith "bad event"
 let next_cfg () =
-  let fe = next_int () = 1 in let fw = next_int () = 1 in
+  let fe = next_int () = 1 in let fw = next_int () = 1 in let ft = next_int () = 1 in
   let hk = (match next_int () with 0 -> HookOk | 1 -> HookRaises | 2 -> HookSlow | _ -> HookAwaits) in
   let er = next_int () = 1 in
-  { fix_eof = fe; fix_wrap = fw; hook = hk; errhook_raises = er }
+  { fix_eof = fe; fix_wrap = fw; fix_task = ft; hook = hk; errhook_raises = er }
 let put_fstate = function
   | Pending -> put_int 0; put_int 0
   | Resolved v -> put_int 1; put_n v
   | FailedRpc c -> put_int 2; put_z c
   | FailedExit c -> put_int 3; put_z c
   | Cancelled -> put_int 4; put_int 0
-let put_exn = function ExIncompleteRead -> put_int 1 | ExErrHook -> put_int 2
+let put_exn = function ExIncompleteRead -> put_int 1 | ExErrHook -> put_int 2 | ExTaskSetException -> put_int 3
 let put_stop = function
   | StopReturns -> put_int 0; put_int 0
   | StopRaises e -> put_int 1; put_exn e
   | StopBlocked -> put_int 2; put_int 0
 let put_obs o =
   put_list (fun (i, f) -> put_n i; put_fstate f) o.o_futs; put_list (fun (rc, d) -> put_z rc; put_bool d) o.o_hooks; put_bool o.o_stopped;
-  put_stop o.o_stop; put_n o.o_errs
+  put_stop o.o_stop; put_n o.o_errs;
+  put_list (fun (j, h) -> put_n j; put_int (match h with HSuspended -> 0 | HCancelRequested -> 1 | HFinished -> 2 | HCancelled -> 3)) o.o_htasks
 let put_expect (i, e) = put_n i; match e with
   | EExit -> put_int 0; put_int 0; put_int 0
   | EKeep f -> put_int 1; put_fstate f
@@ -65,8 +70,11 @@ let dispatch = function
     put_bool (spec_ok (conv_expect evs) (observe (run c evs)))
   | "conv" ->
     let c = next_cfg () in let evs = read_list next_event in let post = next_int () in
-    let orders = [[ReaderRun; ServerExitTask; ServerExitTask]; [ServerExitTask; ReaderRun; ServerExitTask]] in
-    let later = replicate post Send @ [Stop; ReaderRun; ServerExitTask; ServerExitTask] in
+    let nh = next_int () in
+    let rec hsteps k = if k >= nh then [] else HandlerStep (n_of_int k) :: hsteps (k + 1) in
+    let orders = [[ReaderRun; ServerExitTask; ServerExitTask] @ hsteps 0;
+                  [ServerExitTask; ReaderRun; ServerExitTask] @ hsteps 0] in
+    let later = replicate post Send @ [Stop; ReaderRun; ServerExitTask; ServerExitTask] @ hsteps 0 in
     let exps = conv_expect (evs @ List.hd orders @ replicate post Send) in
     put_bool (wf_conv (evs @ List.hd orders)); put_list put_expect exps;
     List.iter (fun ord ->
